@@ -114,7 +114,7 @@ class PythonCryptoEndpoint(CryptoEndpoint, EndpointListener):
         Callback for when data is received on this endpoint.
         """
         source_address, datagram = packet
-        if datagram.startswith(self.prefix) and datagram[22] == CellPayload.msg_id:
+        if datagram.startswith(self.prefix) and len(datagram) > 22 and datagram[22] == CellPayload.msg_id:
             self.process_cell(source_address, datagram)
         elif self.tunnel_community:
             self.tunnel_community.on_packet(packet)
